@@ -68,7 +68,10 @@ TRUSTED = ["hash((pid, CollGroup)) is injective on the queue keys (modelled as t
            "copy.deepcopy of the buffered events is a value copy",
            "the stage-level input is what the real prefix pipeline (ingestion .. tighten_hts_by_instr_type) produced; "
            "those stages are not modelled here (C05/C06), only `ts_dev = TSi/freq` is (convDev)"]
-ASSUMPTIONS = ["epoch invariance end to end relies on the 32-bit wrap normalisation (C05) giving every counter of a rank "
+ASSUMPTIONS = ["types.GlobalIngestData._jobmap (class-level, survives between in-process runs; crc32(path) % 10000 keys can collide "
+               "with entries of earlier runs) is cleared before each real run of this check: one process per CLI call is "
+               "emulated; cross-run hidden state is C14's subject",
+               "epoch invariance end to end relies on the 32-bit wrap normalisation (C05) giving every counter of a rank "
                "the same multiple of 2^32; the theorem is about the stage: a constant added to every ts_dev of one rank",
                "epoch_invariant is stated for device events with pid >= 0 (a negative pid aliases a rank through "
                "Python's negative list index)"]
